@@ -99,9 +99,24 @@ package proxyserver
 //@ func net.Listener.Addr :: ln -> a
 //@   trusted
 //@   pure
-//@ func (*Server).setupServe :: server
+//@ -- C09: the HTTP/1.1 server's handler is wrapped at serve time, whatever handler the user has installed by then
+//@ -- (a wrapper put around the constructor's handler would be lost when the caller replaces HTTPServer.Handler)
+//@ func (*Server).registerMetrics :: server
+//@   trusted
+//@   assigns server.metricRequestsTotal
+//@ func hack.NewChannelListener :: ctx -> ln
+//@   trusted
+//@   assigns nothing
+//@   ensures ln != nil && fresh(ln)
+//@ func (*Server).serveHTTP1 :: server
 //@   trusted
 //@   assigns unrestricted
+//@ func (*Server).setupServe :: server
+//@   props C09
+//@   requires server != nil && server.HTTPServer != nil
+//@   assigns unrestricted
+//@   ensures [C09:handler-in-place-at-serve-time-gets-the-tls-state-wrapper] old(server.http1ConnChannelListener) == nil ==> server.HTTPServer.Handler.(tlsStateHandler) && unbox(tlsStateHandler, server.HTTPServer.Handler).handler == old(server.HTTPServer.Handler)
+//@   ensures [C09:wrapped-only-once] old(server.http1ConnChannelListener) != nil ==> server.HTTPServer.Handler == old(server.HTTPServer.Handler)
 //@ func (*Server).shuttingDown :: server -> r
 //@   trusted
 //@   pure
